@@ -8,7 +8,7 @@ from checks.common import swarm, EXC_TYPES, make_exc
 ID = 'C12'
 LEVEL = 'exploration'
 NEEDS = ('threads', 'proc')
-QUICK = dict(runs=5000, wall=85)
+QUICK = dict(runs=20000, wall=85)
 THOROUGH = dict(runs=300000, wall=1500)
 RULE = ('target ending in {return v (int / None / bytes larger than the pipe), raise E(args) (builtin and custom classes), sys.exit(code) for '
         'code in {None,0,1,3,"msg"}, return / raise with a payload that cannot be pickled} for mpservice Process (simulated process boundary) and mpservice.threading.Thread; for processes a '
